@@ -2179,7 +2179,7 @@ impl<'a> CompilerState<'a> {
                                         _ => {
                                             return Err(self.syntax_error(
                                                 "Type too complex not supported",
-                                                start,
+                                                pair.as_span().start(),
                                             ))
                                         }
                                     }
